@@ -273,7 +273,7 @@ func (c *ctx) autoInline(s mptSpec, pr *PathRule) func(*ssa.Function) bool {
 		}
 		// only helpers that did not exist on the reference tree (newfn.go): known functions keep the meaning the rules
 		// were written against
-		return c.p.transparentSite(g) != nil && contains(g, 2)
+		return (c.p.transparentSite(g) != nil || c.p.isNewNamed(g)) && contains(g, 2)
 	}
 }
 
